@@ -23,6 +23,7 @@ import (
 
 // Failure is one observed failure of one case.
 type Failure struct {
+	Loc    string   `json:"loc,omitempty"` // file:line of the innermost library frame (informational)
 	Kind   string   `json:"kind"`   // panic | death-oom | death-stack | death-fatal | death-other | hang
 	Fn     string   `json:"fn"`     // signature function(s), short form
 	Class  string   `json:"class"`  // message class
@@ -40,6 +41,21 @@ func short(fn string) string {
 		s = "hdf5" + s
 	}
 	return s
+}
+
+// frames are "function@file:line"; fnOf drops the location
+func fnOf(frame string) string {
+	if i := strings.IndexByte(frame, '@'); i >= 0 {
+		return frame[:i]
+	}
+	return frame
+}
+
+func locOf(frame string) string {
+	if i := strings.IndexByte(frame, '@'); i >= 0 {
+		return frame[i+1:]
+	}
+	return ""
 }
 
 var (
@@ -341,7 +357,16 @@ func caseGoroutineFrames(tb string) []string {
 		}
 		var fr []string
 		isCase := false
+		lastLib := false
 		for _, ln := range strings.Split(blk, "\n") {
+			if lastLib && len(ln) > 0 && ln[0] == '\t' && len(fr) > 0 && !strings.Contains(fr[len(fr)-1], "@") {
+				loc := strings.TrimSpace(ln)
+				if i := strings.IndexByte(loc, ' '); i > 0 {
+					loc = loc[:i]
+				}
+				fr[len(fr)-1] += "@" + filepath.Base(loc)
+			}
+			lastLib = false
 			if ln == "" || ln[0] == '\t' || ln[0] == ' ' || strings.HasPrefix(ln, "goroutine ") || strings.HasPrefix(ln, "created by") {
 				continue
 			}
@@ -355,6 +380,7 @@ func caseGoroutineFrames(tb string) []string {
 			}
 			if isLibFrame(fn) {
 				fr = append(fr, short(fn))
+				lastLib = true
 			}
 		}
 		if isCase && best == nil {
@@ -408,7 +434,8 @@ func classifyDeath(stderr string) Failure {
 	if f.Kind == "death-stack" {
 		f.Fn = cycleSet(fr)
 	} else if len(fr) > 0 {
-		f.Fn = fr[0]
+		f.Fn = fnOf(fr[0])
+		f.Loc = locOf(fr[0])
 	}
 	if f.Fn == "" {
 		f.Fn = "?"
@@ -421,7 +448,7 @@ func classifyDeath(stderr string) Failure {
 func cycleSet(fr []string) string {
 	cnt := map[string]int{}
 	for _, f := range fr {
-		cnt[f]++
+		cnt[fnOf(f)]++
 	}
 	var set []string
 	for f, n := range cnt {
@@ -430,7 +457,7 @@ func cycleSet(fr []string) string {
 		}
 	}
 	if len(set) == 0 && len(fr) > 0 {
-		return fr[0]
+		return fnOf(fr[0])
 	}
 	sort.Strings(set)
 	return strings.Join(set, "+")
@@ -446,15 +473,16 @@ func hangFailure(samples [][]string) Failure {
 	common := append([]string(nil), samples[0]...)
 	for _, s := range samples[1:] {
 		n := 0
-		for n < len(common) && n < len(s) && common[n] == s[n] {
+		for n < len(common) && n < len(s) && fnOf(common[n]) == fnOf(s[n]) {
 			n++
 		}
 		common = common[:n]
 	}
 	if len(common) > 0 {
-		f.Fn = common[len(common)-1]
+		f.Fn = fnOf(common[len(common)-1])
+		f.Loc = locOf(common[len(common)-1])
 	} else if len(samples[0]) > 0 {
-		f.Fn = samples[0][0]
+		f.Fn = fnOf(samples[0][0])
 	}
 	// frames innermost first, from the common prefix
 	for i := len(common) - 1; i >= 0; i-- {
